@@ -58,7 +58,10 @@ Record stamper := {
   st_done : Q -> ST -> pkt -> option ST           (* run() after the transmission of the packet; None = raises *)
 }.
 
-Inductive child := CNone | CInit (p : pkt) | CTx (p : pkt) (dl : Q) | CEnded (p : pkt).
+(* the send_packet child; run() keeps the PriorityItem it took in its local variable `item` for the whole
+   transmission, so the model keeps the whole entry (its packet is what send_packet works on) *)
+Inductive child := CNone | CInit (e : entry) | CTx (e : entry) (dl : Q) | CEnded (e : entry).
+Definition epkt (e : entry) : pkt := ipkt (snd e).
 
 Inductive faction :=
 | FPut (p : pkt) | FInit | FStoreCb | FGetDone | FChildInit | FChildTimer | FChildEnd | FAdvance (t : Q).
@@ -104,7 +107,7 @@ Section Server.
     negb (started s) || sq_urgent (store s) || child_urgent s || timer_due s.
 
   Definition current_packet (s : srv) : option pkt :=
-    match chl s with CTx p _ => Some p | _ => None end.
+    match chl s with CTx e _ => Some (epkt e) | _ => None end.
 
   Definition with_store (s : srv) (q : sq item) : srv :=
     {| now := now s; started := started s; store := q; stm := stm s; seq := seq s; qcount := qcount s;
@@ -141,30 +144,31 @@ Section Server.
         end
     | FGetDone =>
         match chl s, sq_take (store s) with
-        | CNone, Some ((_, it), q) =>
-            if started s then Ok (with_child (with_store s q) (CInit (ipkt it)), []) else Disabled
+        | CNone, Some (e, q) =>
+            if started s then Ok (with_child (with_store s q) (CInit e), []) else Disabled
         | _, _ => Disabled
         end
     | FChildInit =>
         match chl s with
-        | CInit p => Ok (with_child s (CTx p (Qred (now s + tx_time p))), [])
+        | CInit e => Ok (with_child s (CTx e (Qred (now s + tx_time (epkt e)))), [])
         | _ => Disabled
         end
     | FChildTimer =>
         match chl s with
-        | CTx p dl =>
+        | CTx e dl =>
+            let p := epkt e in
             if Qeq_bool dl (now s) then
               Ok ({| now := now s; started := started s; store := store s; stm := stm s; seq := seq s;
                      qcount := fupd (qcount s) (flow p) (qcount s (flow p) - 1)%Z;
                      qbytes := fupd (qbytes s) (flow p) (qbytes s (flow p) - psize p)%Z;
-                     nrecv := nrecv s; chl := CEnded p |}, [OForward p])
+                     nrecv := nrecv s; chl := CEnded e |}, [OForward p])
             else Disabled
         | _ => Disabled
         end
     | FChildEnd =>
         match chl s with
-        | CEnded p =>
-            match st_done S (now s) (stm s) p with
+        | CEnded e =>
+            match st_done S (now s) (stm s) (epkt e) with
             | None => Raises
             | Some st' =>
                 match sq_get pq_pop (store s) with
